@@ -86,36 +86,43 @@ def observe(op, src_before, src_after, dst_dir, replace):
 
 
 def op_copy(arg):
-    comp, rechunk, target_rows, n = arg
-    d1, d2 = tempfile.mkdtemp(prefix="verif_c16a_"), tempfile.mkdtemp(prefix="verif_c16b_")
+    """copy_to_frontend into one named frontend (which = 0), or - with three frontends and no target_frontend_id - into every other
+    frontend at once, observing destination number `which` (1, 2)"""
+    comp, rechunk, target_rows, n = arg[:4]
+    which = arg[4] if len(arg) > 4 else 0
+    d1, d2, d3 = (tempfile.mkdtemp(prefix=f"verif_c16{x}_") for x in "abc")
     try:
         st = ctx([d1], n)
         st.make("0", "mapped", progress_bar=False)
-        st = ctx([d1, d2], n)
+        st = ctx([d1, d2] + ([d3] if which else []), n)
         sdir = find_dir(d1, "mapped")
         before = read_dir(sdir)
-        kw = dict(target_frontend_id=1, target_compressor=comp, rechunk=rechunk)
+        kw = dict(target_frontend_id=None if which else 1, target_compressor=comp, rechunk=rechunk)
         if rechunk:
             kw["rechunk_to_mb"] = (target_rows * H.ROWDT.itemsize + 4) * 1e-6
         with warnings.catch_warnings():
             warnings.simplefilter("ignore")
             st.copy_to_frontend("0", "mapped", **kw)
         after = read_dir(sdir)
-        ddir = find_dir(d2, "mapped")
+        dd = d3 if which == 2 else d2
+        name = f"copy_to_frontend(compressor={comp}, rechunk={rechunk}, target_rows={target_rows}" + (f", to every other frontend: destination {which} of 2)" if which else ")")
+        ddir = find_dir(dd, "mapped")
+        if ddir is None:
+            return dict(op=name, o=None, extra=[], err="the destination frontend holds no copy afterwards")
         o, meta = observe("copy", before, after, ddir, False)
         extra = []
         if comp and meta["compressor"] != comp:
             extra.append(f"destination compressor is {meta['compressor']}, requested {comp}")
         # and it loads through a context that only has the destination
-        x = ctx([d2], n).get_array("0", "mapped", progress_bar=False)
+        x = ctx([dd], n).get_array("0", "mapped", progress_bar=False)
         if x.tobytes() != before[2].tobytes():
             extra.append("get_array from the destination frontend differs from the source")
-        return dict(op=f"copy_to_frontend(compressor={comp}, rechunk={rechunk}, target_rows={target_rows})", o=o, extra=extra, err=None)
+        return dict(op=name, o=o, extra=extra, err=None)
     except Exception as e:  # noqa
         return dict(op=f"copy_to_frontend{arg}", o=None, extra=[], err=f"{type(e).__name__}: {e}"[:200])
     finally:
-        shutil.rmtree(d1, ignore_errors=True)
-        shutil.rmtree(d2, ignore_errors=True)
+        for d in (d1, d2, d3):
+            shutil.rmtree(d, ignore_errors=True)
 
 
 def op_rechunker(arg):
@@ -241,8 +248,11 @@ def project(d, n):
     if sdir is None:
         return dict(present=False, edges=[], rows=[], md=[], comp="none", start=0, end=0, ended=False, exc=False)
     be = strax.FileSytemBackend()
-    chunks = list(be.loader(sdir))
-    meta = be.get_metadata(sdir)
+    try:
+        chunks = list(be.loader(sdir))
+        meta = be.get_metadata(sdir)
+    except Exception as e:  # noqa   a directory that is there but does not load: present, with nothing in it (no action of the model writes that)
+        return dict(present=True, edges=[], rows=[], md=[], comp="unloadable: " + f"{type(e).__name__}: {e}"[:120], start=0, end=0, ended=False, exc=True)
     files = set(os.path.basename(x) for x in glob.glob(sdir + "/*"))
     ids = {r: i + 1 for i, r in enumerate(canon_rows(n))}
     rows = [[ids.get((int(r["time"]), int(strax.endtime(r)), int(r["v"])), 0) for r in c.data] for c in chunks]
@@ -255,15 +265,15 @@ def project(d, n):
 
 def gen_history(rng, n, length):
     """A random applicable operation sequence (the abstract preconditions of StoreOps.tla decide applicability)."""
-    present = {"A": False, "B": False}
+    present = {"A": False, "B": False, "C": False}
     first = rng.choice("AB")
     ops = [dict(op="make", a=first, b=first, c="same", rc=False)]
     present[first] = True
     while len(ops) < length:
-        kind = rng.choice(["copy", "rewrite", "rewrite", "load"])
-        have = [k for k in "AB" if present[k]]
+        kind = rng.choice(["copy", "copyall", "rewrite", "rewrite", "load"])
+        have = [k for k in "ABC" if present[k]]
         a = rng.choice(have)
-        other = "B" if a == "A" else "A"
+        other = rng.choice([k for k in "ABC" if k != a])
         c = rng.choice(["same"] + COMPRESSORS)
         tr = rng.choice([None, 1, 2, 4, 100])
         if kind == "copy":
@@ -271,6 +281,11 @@ def gen_history(rng, n, length):
                 continue
             ops.append(dict(op="copy", a=a, b=other, c=c, rc=tr is not None, tr=tr))
             present[other] = True
+        elif kind == "copyall":
+            if all(present.values()):
+                continue
+            ops.append(dict(op="copyall", a=a, b=a, c=c, rc=tr is not None, tr=tr))
+            present = {k: True for k in present}
         elif kind == "rewrite":
             inplace = present[other] or rng.random() < 0.5
             ops.append(dict(op="rewrite", a=a, b=a if inplace else other, c=c, rc=tr is not None, tr=tr,
@@ -286,7 +301,7 @@ def run_history(arg):
     n, ops = arg
     import contextlib
     import io
-    dirs = {"A": tempfile.mkdtemp(prefix="verif_c16A_"), "B": tempfile.mkdtemp(prefix="verif_c16B_")}
+    dirs = {k: tempfile.mkdtemp(prefix=f"verif_c16{k}_") for k in "ABC"}
     events = []
     ids = {r: i + 1 for i, r in enumerate(canon_rows(n))}
     err = None
@@ -306,6 +321,12 @@ def run_history(arg):
                         if op["rc"]:
                             kw["rechunk_to_mb"] = mb
                         st.copy_to_frontend("0", "mapped", **kw)
+                    elif op["op"] == "copyall":
+                        st = ctx([dirs[op["a"]]] + [dirs[k] for k in "ABC" if k != op["a"]], n)
+                        kw = dict(target_compressor=None if op["c"] == "same" else op["c"], rechunk=bool(op["rc"]))
+                        if op["rc"]:
+                            kw["rechunk_to_mb"] = mb
+                        st.copy_to_frontend("0", "mapped", **kw)
                     elif op["op"] == "rewrite":
                         sdir = find_dir(dirs[op["a"]], "mapped")
                         replace = op["a"] == op["b"]
@@ -321,7 +342,7 @@ def run_history(arg):
             except Exception as e:  # noqa
                 err = f"{op}: {type(e).__name__}: {e}"[:300]
                 break
-            ev["state"] = {k: project(dirs[k], n) for k in "AB"}
+            ev["state"] = {k: project(dirs[k], n) for k in "ABC"}
             events.append(ev)
         return dict(n=n, ops=ops, events=events, err=err)
     finally:
@@ -333,7 +354,7 @@ def storeops_constants(n):
     rows = canon_rows(n)
     cs = src_chunks(n)
     return dict(Rows=[dict(s=r[0], e=r[1]) for r in rows], Edges0=[cs[0]["s"]] + [c["e"] for c in cs], Half=int(strax.DEFAULT_CHUNK_SPLIT_NS // 2),
-                Comps=set(COMPRESSORS), DefaultComp="blosc", Locs={"A", "B"})
+                Comps=set(COMPRESSORS), DefaultComp="blosc", Locs={"A", "B", "C"})
 
 
 def tla_consts(c, maxops):
@@ -411,6 +432,8 @@ def run(chk):
             work.append(("copy", (comp, rechunk, tr, n)))
             if comp in (None, "zstd"):
                 work.append(("copy", (comp, rechunk, tr, 10 + n)))
+                work.append(("copy", (comp, rechunk, tr, n, 1)))       # three frontends, copied to both others in one call
+                work.append(("copy", (comp, rechunk, tr, n, 2)))
     for comp in [None] + COMPRESSORS:
         for tr in (None, 1, 4, 100):
             for par in (False, "thread", "process"):
